@@ -303,6 +303,7 @@ fn run_episode(
         "switches": switches,
         "switches_in_build": switches_in_build,
         "lock_handovers": lock_handovers,
+        "critical_sites": CRITICAL_SITES.load(Ordering::SeqCst).count_ones(),
         "decisions": decisions_total,
         "stats": {
             "build_after_build": stats.build_after_build,
